@@ -12,6 +12,7 @@ import (
 	"math"
 	"math/big"
 	"os"
+	"reflect"
 	"strings"
 )
 
@@ -156,8 +157,8 @@ func Thorough() bool { return os.Getenv("VERIF_TIER") == "thorough" }
 // Symbolic reports whether the harness runs under the symbolic executor.
 func Symbolic() bool { return false }
 
-func Note(s string)        {}
-func PermuteMaps(on bool)  {}
+func Note(s string)              {}
+func PermuteMaps(on bool)        {}
 func Concretize(x uint64) uint64 { return x }
 
 func ufKey(name string, args []interface{}) string {
@@ -234,6 +235,15 @@ func flat(a interface{}, as *[]string, sig *string) {
 	case *big.Int:
 		add(0, x)
 	default:
+		// named byte-array types (common.Hash, common.Address, ...)
+		if rv := reflect.ValueOf(a); rv.Kind() == reflect.Array && rv.Type().Elem().Kind() == reflect.Uint8 {
+			b := make([]byte, rv.Len())
+			for i := range b {
+				b[i] = byte(rv.Index(i).Uint())
+			}
+			add(8*len(b), new(big.Int).SetBytes(b))
+			return
+		}
 		panic(fmt.Sprintf("zzverif: unsupported UF argument %T", a))
 	}
 }
@@ -389,5 +399,9 @@ func Keccak(b []byte) [32]byte { panic("zzverif.Keccak is only available under t
 
 // DeepCopy / Restore exist only under the symbolic executor (harness stand-ins for a
 // serialisation round trip); natively the real codec runs instead of the stand-ins.
-func DeepCopy(x interface{}) interface{} { panic("zzverif.DeepCopy is only available under the symbolic executor") }
-func Restore(dst, src interface{})      { panic("zzverif.Restore is only available under the symbolic executor") }
+func DeepCopy(x interface{}) interface{} {
+	panic("zzverif.DeepCopy is only available under the symbolic executor")
+}
+func Restore(dst, src interface{}) {
+	panic("zzverif.Restore is only available under the symbolic executor")
+}
